@@ -35,7 +35,12 @@ pub struct RawDump {
 impl<T, A: Allocator> RawTable<T, A> {
     pub fn verif_dump(&self) -> RawDump {
         let t = &self.table;
-        let n = t.bucket_mask + 1 + Group::WIDTH;
+        // the static singleton owns exactly Group::WIDTH control bytes
+        let n = if t.bucket_mask == 0 {
+            Group::WIDTH
+        } else {
+            t.bucket_mask + 1 + Group::WIDTH
+        };
         let mut ctrl = Vec::with_capacity(n);
         for i in 0..n {
             ctrl.push(unsafe { *t.ctrl.as_ptr().add(i) });
